@@ -1,18 +1,22 @@
 use crate::report::Prop;
 use crate::report::Tier;
 
+pub mod c02;
 pub mod c06;
 pub mod c14;
+pub mod c15;
 pub mod c17;
 pub mod c18;
 pub mod c20;
 
-pub const ALL: &[&str] = &["C06", "C14", "C17", "C18", "C20"];
+pub const ALL: &[&str] = &["C02", "C06", "C14", "C15", "C17", "C18", "C20"];
 
 pub fn get(id: &str, tier: Tier) -> Option<Prop> {
   Some(match id {
+    "C02" => c02::prop(tier),
     "C06" => c06::prop(tier),
     "C14" => c14::prop(tier),
+    "C15" => c15::prop(tier),
     "C17" => c17::prop(tier),
     "C18" => c18::prop(tier),
     "C20" => c20::prop(tier),
